@@ -3,7 +3,8 @@
 // Engine B in worker subprocesses. A real recording (made by the real recorder: two closed
 // segments and one that was never closed) is corrupted by every deviation of a stated
 // alphabet, one at a time (pairs in the header in the thorough tier), and by foreign files;
-// for every case the real playback server (list, get fmp4/mp4) and the real API server
+// directory-level degenerate states (dir.go) and sequences of files whose headers declare
+// different tracks (join.go) are further members of the alphabet; for every case the real playback server (list, get fmp4/mp4) and the real API server
 // (recordings/list, recordings/get) are queried. The oracle is the statement: every request is
 // answered (any status) and the server process survives. The servers run in worker
 // subprocesses with a 3 GiB address-space cap; a death is attributed to the case and probe.
@@ -393,7 +394,10 @@ func main() {
 		"{tfdt, trun sample table, trun payload zero-filled or not} x {in every part, in the last part}, plus one minimal written part {1,2 tracks} x {1,2 samples} x {duration 0, >0} x {base time 0, >0} " +
 		"(quick: all files degenerate, each file alone and degenerate; thorough: every assignment with a degenerate file); per state list with start x end over {absent, before, at the first segment, " +
 		"inside the first, inside the last, after all} (36 requests), get from the 5 positions in both formats, API recordings requests. " +
-		"distinct = (kind of deviation, box concerned | class of the directory state, status of every request | how the process died)"
+		"Joined segments whose headers differ: 2 and 3 files consecutive by their mtxi boxes (pairs also without mtxi), every file with one of 13 track layouts (tracks added / missing / other ids / ids exchanged / other codecs / " +
+		"other time scales / reordered / parts carrying an undeclared track / a declared track not carried): every ordered pair, the ordered triples (quick: those with a plain file; thorough: all); per sequence list and get (fmp4, mp4) " +
+		"beginning at / inside every file but the last, with a window ending inside the following file and one of 1 h. " +
+		"distinct = (kind of deviation, box concerned | class of the directory state | number of joined files and mtxi mode, status of every request | how the process died)"
 
 	base, err := reclib.TempDir("c28")
 	if err != nil {
@@ -623,6 +627,7 @@ func main() {
 		"corpus = one recording made by the real recorder (H.264 + MPEG-4 audio, 3 segments, the last one never closed)",
 		"single deviations (pairs only inside the header, thorough tier); byte values {00,FF} in the quick tier, {00,01,7F,80,FF} in the thorough tier",
 		"directory-level states: all degenerate files of a directory are degenerate in the same way; the ways are zero-fills of whole time-carrying fields and removals of whole parts (not every byte value in them); the foreign and directory-level cases are evaluated first, so an enumeration cut by the deadline still contains all of them",
+		"joined sequences: every file is well-formed on its own (written with mediacommon, 2 parts x 2 samples per carried track, every file but the newest closed); the files differ in their track layouts only; mtxi boxes consecutive or absent",
 		"workers run with RLIMIT_AS = 3 GiB (a 2 GiB request fails at once instead of being zero-filled for seconds); an out-of-memory abort is reported as class 'resource', a panic/exit as 'crash', no answer within 30 s as 'hang'",
 		"FIFOs are excluded (a blocking open is an environment hang); the harness runs as root, so the unreadable file is readable",
 		"the API recordings endpoints never open segment files; they are probed on every foreign case and on a spread of the others",
